@@ -1,6 +1,7 @@
 """C17 — work queue: one worker at a time, each item handed out once, none stranded (structural part)."""
 from core import strip, is_field, order_ge, key_str
 from facts import AnalysisBroken
+from props import deps
 from rules import (field_load, through_local, check_init, nodeset, ev, Unevaluable, atom_from, reach, ret_const, is_var_load)
 
 EXPLANATION = (
@@ -20,6 +21,8 @@ def fld(field):
 
 def run(ctx):
     P = ctx.prog()
+    deps.depend(ctx, P, 'C15', 'queue.dep', "the work queue's item queue (mpsc_fifo)",
+                'an item the queue drops is announced in in_count for ever: the worker never retires', lambda x: x.rule.startswith(("mpsc.", "mpsc_fifo.")) or x.fn == "mpsc_fifo_init")
     f = P.fn("work_queue_push")
     o = ctx.ob("push", f, "one atomic add-and-fetch(1) on in_count, before the item is pushed onto the fifo; START_WORKING exactly when the result is 1",
                "enqueueing before announcing lets the active worker see out == in, subtract and retire while the item is queued: it is "
@@ -35,7 +38,7 @@ def run(ctx):
             bad = "the item is enqueued before it is announced in in_count"
         if f.find_path("entry", "exit", barrier=nodeset(pushes)) is not None:
             bad = bad or "a path returns without enqueueing the item"
-        for v in (1, 2, 5):
+        for v in (1, 2, 5, 2 ** 32 + 1, 2 ** 31, 2 ** 33 + 1, 2 ** 62 + 1):       # a backlog that is never drained keeps in_count growing past 2^32
             atom = atom_from([(lambda n: n is op.node, v)])
             for r in f.returns():
                 if reach(f, [r], atom):
